@@ -25,8 +25,8 @@ CONTRACT_GROUPS = ['C01']   # icontract layer (vlib/contracts.py) active inside 
 RULE = ("case = one generated configuration + point(s); non-trivial if functions were reported and at least one value was compared; "
         "distinct key = case index; monitor_counters.values_compared counts individual numbers checked")
 ASSUMPTIONS = ["the weight row reported in Realizations for a filtered function is the filter's output (checked for correctness by C04/C05)"]
-REQUIRED = {"quick": {"values_compared": 8000, "unfiltered_next_to_filtered": 300, "batch_compared": 1000, "bump_compared": 500, "with_nan": 300, "cases_with_single_precision_evaluator_output": 250, "filter_rows_cross_checked": 1500, "history_calls_compared": 5000, "combined_path_function_results_judged": 1500, "__nontrivial__": 1246},
-            "thorough": {"values_compared": 150000, "unfiltered_next_to_filtered": 5000, "batch_compared": 20000, "bump_compared": 10000, "with_nan": 5000, "cases_with_single_precision_evaluator_output": 5000, "filter_rows_cross_checked": 30000, "history_calls_compared": 100000, "combined_path_function_results_judged": 30000, "__nontrivial__": 25268}}
+REQUIRED = {"quick": {"values_compared": 8000, "unfiltered_next_to_filtered": 300, "batch_compared": 1000, "bump_compared": 500, "with_nan": 300, "cases_with_single_precision_evaluator_output": 250, "mean_values_under_surviving_weights_with_negative_sum": 40, "filter_rows_cross_checked": 1500, "history_calls_compared": 5000, "combined_path_function_results_judged": 1500, "__nontrivial__": 1246},
+            "thorough": {"values_compared": 150000, "unfiltered_next_to_filtered": 5000, "batch_compared": 20000, "bump_compared": 10000, "with_nan": 5000, "cases_with_single_precision_evaluator_output": 5000, "mean_values_under_surviving_weights_with_negative_sum": 800, "filter_rows_cross_checked": 30000, "history_calls_compared": 100000, "combined_path_function_results_judged": 30000, "__nontrivial__": 25268}}
 N = {"quick": 3000, "thorough": 60000}
 TOL = 1e-10
 
@@ -82,6 +82,11 @@ def gen_spec(rng):
             if rng.random() < 0.3:
                 nan.append({"call": None, "r": r, "p": -1, "col": int(rng.integers(F))})
     spec["nan"] = nan
+    if not spec.get("estimators") and not spec.get("filters") and R >= 3 and rng.random() < 0.06:
+        # mixed-sign weights and a failure of the realization with the largest weight: the surviving weights sum to a negative number
+        spec["rweights"] = [3.0, 1.0, -2.0] + [0.0] * (R - 3)
+        spec["nan"] = [{"call": None, "r": 0, "p": -1, "col": 0}]
+        spec["rmin"] = int(rng.integers(0, 3))
     return spec
 
 
@@ -214,9 +219,14 @@ def expected_functions(obs, spec, cfg, res, objs, cons):
             obs.count("no_positive_weight_survivor")
             return False
         surv = np.where(failed, 0.0, wforce)
-        if surv.sum() <= 0.1 * np.abs(surv).sum():
+        est_name = ests[emap[jj]] if emap is not None else ests[0]
+        if abs(surv.sum()) <= 0.1 * np.abs(surv).sum() or (surv.sum() < 0 and est_name != "mean"):
             obs.count("trivial.surviving_weights_cancel")
             return False
+        if surv.sum() < 0:
+            # the surviving weights sum to a negative number (clearly away from zero): normalized is normalized, the weighted mean
+            # is the mean under the weights divided by their sum
+            obs.count("mean_values_under_surviving_weights_with_negative_sum")
         if np.any(surv < 0):
             obs.count("with_negative_realization_weight")
         w = models.norm_weights(wforce, failed)
